@@ -89,7 +89,36 @@ func checkC06(p *Program, r *Result) {
 			return -1
 		}
 		iFlush, iSum, iEnd, iReset, iSummary := idx("mcap.Writer.flushActiveChunk"), idx("mcap.writeSizer.Checksum"), idx("mcap.Writer.WriteDataEnd"), idx("mcap.writeSizer.ResetCRC"), idx("mcap.Writer.writeSummarySection")
-		if iSum < 0 || iEnd < 0 {
+		if iSum < 0 && iEnd >= 0 {
+			// the checksum may be taken inside WriteDataEnd instead: it must then be read before any byte of the DataEnd
+			// record reaches the sink
+			de := p.lookupFunc(pkgMcap, "Writer.WriteDataEnd")
+			var sum ssa.CallInstruction
+			if de != nil {
+				for _, ci := range callsIn(de, func(ci ssa.CallInstruction) bool { return calleeRepoName(ci) == "mcap.writeSizer.Checksum" }) {
+					sum = ci
+				}
+			}
+			switch {
+			case sum == nil:
+				r.violated("C06.a", fname, "data CRC", p.pos(fn.Pos()), "no reading of the running checksum reaches the DataEnd record (neither in Close nor in WriteDataEnd)")
+			default:
+				early := ""
+				for _, ci := range callsIn(de, func(ci ssa.CallInstruction) bool { ok, _ := isSink(ci); return ok }) {
+					before := ci.Block() == sum.Block() && blockIndexOf(ci) < blockIndexOf(sum) || ci.Block() != sum.Block() && reachableFromSuccs(ci.Block())[sum.Block()]
+					if before {
+						early = p.pos(ci.Pos())
+					}
+				}
+				if early != "" {
+					r.violated("C06.a", funcName(de), "data CRC", p.pos(sum.Pos()), "the data checksum is read after part of the DataEnd record was already written (sink write at "+early+"); data_section_crc must cover the bytes up to, not including, the DataEnd record")
+				} else if iFlush >= 0 && !(iFlush < iEnd) {
+					r.violated("C06.a", fname, "data CRC", p.pos(sum.Pos()), "the data checksum is read before the last chunk is flushed")
+				} else {
+					r.held("C06.a", funcName(de), "data CRC", p.pos(sum.Pos()), "Checksum() read in WriteDataEnd before any byte of the record is written, after the last flush")
+				}
+			}
+		} else if iSum < 0 || iEnd < 0 {
 			r.undecided("C06.a", fname, "data CRC", p.pos(fn.Pos()), "Checksum()/WriteDataEnd calls not found in Close")
 		} else {
 			// the checksum value must be what is stored into DataEnd.DataSectionCRC
